@@ -65,7 +65,7 @@ class SimLoop(asyncio.base_events.BaseEventLoop):
         self.task_failures = []        # (vtime, task name, repr(exception))
         self.callback_errors = []      # (vtime, message, repr(exception))
         self._task_counter = 0
-        self.set_task_factory(self._task_factory)
+        self.set_task_factory(self._sim_task_factory)
         self.set_exception_handler(self._on_exception)
         self.after_handle = None       # optional fn(loop) run after every handle (cheap invariants)
 
@@ -87,7 +87,7 @@ class SimLoop(asyncio.base_events.BaseEventLoop):
     def _write_to_self(self):
         pass
 
-    def _task_factory(self, loop, coro, **kwargs):
+    def _sim_task_factory(self, loop, coro, **kwargs):
         self._task_counter += 1
         kwargs.setdefault('name', None)
         name = kwargs.pop('name') or f"T{self._task_counter}:{getattr(coro, '__qualname__', type(coro).__name__)}"
